@@ -299,7 +299,8 @@ pub fn gen_knobs(r: &mut Rng, vary: bool) -> Knobs {
 pub fn gen_key_addr(r: &mut Rng, nkeys: u16, byron_pm: u64) -> AddrSpec {
     let k = r.below(nkeys as u64) as u16;
     if r.below(1000) < byron_pm {
-        return AddrSpec::Byron(k);
+        // one Byron owner in four is of the Daedalus kind (derivation path in the attributes)
+        return if r.chance(1, 4) { AddrSpec::ByronPath(k % 16, *r.pick(&[28u8, 40])) } else { AddrSpec::Byron(k) };
     }
     match r.below(10) {
         0..=5 => AddrSpec::Base(Cred::Key(k), Cred::Key(r.below(nkeys as u64) as u16)),
